@@ -362,19 +362,52 @@ func Check(d Driver, tier string, seed uint64, workers int, cfg TierCfg) int {
 	// (then they are announced and suppressed), fixed ones must stay fixed.
 	active := map[string]bool{}
 	knownLines := []string{}
+	// the replays run in fresh processes, several at a time (real-git cases are slow)
+	selfExe, _ := os.Executable()
+	type fres struct {
+		res *Result
+		err string
+	}
+	mine := []Finding{}
 	for _, f := range findings.Findings {
-		if f.Property != prop {
-			continue
+		if f.Property == prop && f.Replay != "" {
+			mine = append(mine, f)
 		}
-		if f.Replay == "" {
-			continue
-		}
-		rp, err := ReadReplay(filepath.Join(VerifDir(), f.Replay))
-		if err != nil {
-			fmt.Fprintf(os.Stderr, "harness: cannot read finding replay %s: %v\n", f.Replay, err)
+	}
+	fresults := make([]fres, len(mine))
+	sem := make(chan struct{}, 8)
+	done := make(chan int, len(mine))
+	for i := range mine {
+		go func(i int) {
+			sem <- struct{}{}
+			defer func() { <-sem; done <- i }()
+			path := filepath.Join(VerifDir(), mine[i].Replay)
+			if _, err := ReadReplay(path); err != nil {
+				fresults[i].err = fmt.Sprintf("cannot read finding replay %s: %v", mine[i].Replay, err)
+				return
+			}
+			out, err := exec.Command(selfExe, "exec", path).Output()
+			if err != nil {
+				fresults[i].err = fmt.Sprintf("finding replay %s: %v", mine[i].Replay, err)
+				return
+			}
+			r := &Result{}
+			if err := json.Unmarshal(out, r); err != nil {
+				fresults[i].err = fmt.Sprintf("finding replay %s: unreadable result: %v", mine[i].Replay, err)
+				return
+			}
+			fresults[i].res = r
+		}(i)
+	}
+	for range mine {
+		<-done
+	}
+	for i, f := range mine {
+		if fresults[i].err != "" {
+			fmt.Fprintf(os.Stderr, "harness: %s\n", fresults[i].err)
 			return 2
 		}
-		res := d.Execute(rp.Case)
+		res := fresults[i].res
 		if res.HarnessErr != "" {
 			fmt.Fprintf(os.Stderr, "harness: finding replay %s: %s\n", f.Replay, res.HarnessErr)
 			return 2
@@ -408,8 +441,8 @@ func Check(d Driver, tier string, seed uint64, workers int, cfg TierCfg) int {
 	}
 
 	// 2. seeded exploration across worker processes
-	deadline := start.Add(time.Duration(cfg.BudgetS) * time.Second)
-	self, _ := os.Executable()
+	deadline := time.Now().Add(time.Duration(cfg.BudgetS) * time.Second) // the budget is the exploration's; replaying findings is not charged to it
+	self := selfExe
 	activeIDs := []string{}
 	for id := range active {
 		activeIDs = append(activeIDs, id)
